@@ -237,13 +237,25 @@ def _check_save_and_read(ser):
 
 def _field_wrapper_facts(fw):
     dflt = find_def(fw, "default", cls="FieldWrapper")
-    chain = [s for s in clean(dflt.body) if isinstance(s, ast.If)]
-    if not chain:
-        raise Unrecognised("FieldWrapper.default: no if chain")
+    # the chain of sources is the if statement that starts with the test on `self._default` (old shape: the first statement;
+    # new shape: preceded by `single_value = True`, a flag read only by the packaging for reused (ALWAYS_MERGE) fields)
+    body = clean(dflt.body)
+    chain = [s for s in body if isinstance(s, ast.If) and unparse(s.test) == "self._default is not None"]
+    if len(chain) != 1:
+        raise Unrecognised("FieldWrapper.default: chain starting with `self._default is not None` not found exactly once")
+    before = [unparse(s) for s in body[:body.index(chain[0])]]
+    if before not in ([], ["single_value = True"]):
+        raise Unrecognised(f"FieldWrapper.default: statements before the chain of sources: {before}")
     arms, _ = if_chain(chain[0])
     first_test = unparse(arms[0][0])
-    if first_test != "self._default is not None" or [unparse(s) for s in arms[0][1]] != ["default = self._default"]:
-        raise Unrecognised(f"FieldWrapper.default: first arm is `{first_test}`: {[unparse(s) for s in arms[0][1]]}")
+    first_body = [unparse(s) for s in arms[0][1]]
+    if first_body not in (["default = self._default"], ["default = self._default", "single_value = False"]):
+        raise Unrecognised(f"FieldWrapper.default: first arm is `{first_test}`: {first_body}")
+    # after the chain: only the packaging for reused fields (guarded by self.is_reused) and the return
+    after = body[body.index(chain[0]) + 1:]
+    if len(after) != 2 or not isinstance(after[0], ast.If) or unparse(after[0].test) != "self.is_reused and default is not None" \
+            or after[0].orelse or unparse(after[1]) != "return default":
+        raise Unrecognised(f"FieldWrapper.default: statements after the chain of sources: {[unparse(x)[:60] for x in after]}")
     tests = [unparse(t) for t, _ in arms]
     want = ["self._default is not None", "self.is_subgroup", None, "self.field.default is not dataclasses.MISSING",
             "self.field.default_factory is not dataclasses.MISSING", "self.action == 'store_true'", "self.action == 'store_false'"]
